@@ -24,10 +24,22 @@ pub enum K {
     ArcLeafS,
     /// `Arc<Leaf>`: reloadable
     ArcLeaf,
+    /// `OnceInitCell<LeafS, String>`: a cell around an opt-out type opts out too
+    CellLeafS,
+    /// `OnceInitCell<Option<LeafS>, String>`: so does the Option flavour
+    CellOptLeafS,
 }
 
 type ALeafS = std::sync::Arc<LeafS>;
 type ALeaf = std::sync::Arc<Leaf>;
+type CLeafS = assets_manager::OnceInitCell<LeafS, String>;
+type COLeafS = assets_manager::OnceInitCell<Option<LeafS>, String>;
+fn cell_value(c: &CLeafS) -> String {
+    c.get_or_init(|seed| seed.0.clone()).clone()
+}
+fn cell_opt_value(c: &COLeafS) -> String {
+    c.get_or_init(|seed| seed.as_ref().map(|l| l.0.clone()).unwrap_or_default()).clone()
+}
 
 #[derive(Debug, Clone, Copy, Serialize, Deserialize, PartialEq, Eq)]
 pub enum Ctor {
@@ -85,6 +97,8 @@ fn typed_value(c: AnyCache, k: K, id: &str) -> Option<String> {
         K::Stor => c.get_cached::<SV>(id).map(|h| h.read().0.clone()),
         K::ArcLeafS => c.get_cached::<ALeafS>(id).map(|h| h.read().0.clone()),
         K::ArcLeaf => c.get_cached::<ALeaf>(id).map(|h| h.read().0.clone()),
+        K::CellLeafS => c.get_cached::<CLeafS>(id).map(|h| cell_value(&h.read())),
+        K::CellOptLeafS => c.get_cached::<COLeafS>(id).map(|h| cell_opt_value(&h.read())),
     }
 }
 
@@ -106,6 +120,8 @@ fn typed_meta(c: AnyCache, k: K, id: &str) -> Option<(ReloadId, bool, Option<(us
         K::Stor => m!(SV, |_h| None),
         K::ArcLeafS => m!(ALeafS, |_h| None),
         K::ArcLeaf => m!(ALeaf, |_h| None),
+        K::CellLeafS => m!(CLeafS, |_h| None),
+        K::CellOptLeafS => m!(COLeafS, |_h| None),
     }
 }
 
@@ -117,6 +133,8 @@ fn typed_load(c: AnyCache, k: K, id: &str) -> Option<String> {
         K::NS => c.load::<NS>(id).ok().map(|h| h.read().0.clone()),
         K::ArcLeafS => c.load::<ALeafS>(id).ok().map(|h| h.read().0.clone()),
         K::ArcLeaf => c.load::<ALeaf>(id).ok().map(|h| h.read().0.clone()),
+        K::CellLeafS => c.load::<CLeafS>(id).ok().map(|h| cell_value(&h.read())),
+        K::CellOptLeafS => c.load::<COLeafS>(id).ok().map(|h| cell_opt_value(&h.read())),
         K::Stor => None,
     }
 }
@@ -129,6 +147,8 @@ fn typed_load_owned(c: AnyCache, k: K, id: &str) {
         K::NS => drop(c.load_owned::<NS>(id)),
         K::ArcLeafS => drop(c.load_owned::<ALeafS>(id)),
         K::ArcLeaf => drop(c.load_owned::<ALeaf>(id)),
+        K::CellLeafS => drop(c.load_owned::<CLeafS>(id)),
+        K::CellOptLeafS => drop(c.load_owned::<COLeafS>(id)),
         K::Stor => {}
     }
 }
@@ -142,6 +162,8 @@ fn typed_goi(c: AnyCache, k: K, id: &str, v: String) -> String {
         K::Stor => c.get_or_insert(id, SV(v)).read().0.clone(),
         K::ArcLeafS => c.get_or_insert(id, std::sync::Arc::new(LeafS(v))).read().0.clone(),
         K::ArcLeaf => c.get_or_insert(id, std::sync::Arc::new(Leaf(v))).read().0.clone(),
+        K::CellLeafS => cell_value(&c.get_or_insert(id, CLeafS::new(LeafS(v))).read()),
+        K::CellOptLeafS => cell_opt_value(&c.get_or_insert(id, COLeafS::new(Some(LeafS(v)))).read()),
     }
 }
 
@@ -155,6 +177,8 @@ macro_rules! typed_mut {
             K::Stor => $cache.$m::<SV>($id).map(|_| ()),
             K::ArcLeafS => $cache.$m::<ALeafS>($id).map(|_| ()),
             K::ArcLeaf => $cache.$m::<ALeaf>($id).map(|_| ()),
+            K::CellLeafS => $cache.$m::<CLeafS>($id).map(|_| ()),
+            K::CellOptLeafS => $cache.$m::<COLeafS>($id).map(|_| ()),
         }
     };
 }
@@ -375,7 +399,7 @@ fn race_load_insert<C: Racer>(c: &C, sb: &crate::props::common::SpinBarrier, _an
 pub struct C10;
 
 fn kind_s() -> impl Strategy<Value = K> {
-    prop_oneof![4 => Just(K::Leaf), 2 => Just(K::N0), 2 => Just(K::LeafS), 1 => Just(K::NS), 1 => Just(K::Stor), 1 => Just(K::ArcLeafS), 1 => Just(K::ArcLeaf)]
+    prop_oneof![4 => Just(K::Leaf), 2 => Just(K::N0), 2 => Just(K::LeafS), 1 => Just(K::NS), 1 => Just(K::Stor), 1 => Just(K::ArcLeafS), 1 => Just(K::ArcLeaf), 1 => Just(K::CellLeafS), 1 => Just(K::CellOptLeafS)]
 }
 
 fn op_strategy() -> impl Strategy<Value = Op> {
@@ -399,7 +423,7 @@ impl Prop for C10 {
 
     fn rule(&self) -> String {
         "cases = (cache constructor: with_source on a hot-reloadable source (reloader) | without_hot_reloading | with_source on a source without hot-reloading support | with_source on a source whose configure_hot_reloading fails after having stored the EventSender | LocalAssetCache; \
-         history over 3 ids x kinds {reloadable asset, reloadable compound, opt-out asset, opt-out compound, Storable, Arc of an opt-out asset, Arc of a reloadable asset} of load / load_owned / get_or_insert / remove / take / clear, edits of the files behind the ids (all notified), \
+         history over 3 ids x kinds {reloadable asset, reloadable compound, opt-out asset, opt-out compound, Storable, Arc of an opt-out asset, Arc of a reloadable asset, OnceInitCell<U, T> and OnceInitCell<Option<U>, T> around an opt-out asset} of load / load_owned / get_or_insert / remove / take / clear, edits of the files behind the ids (all notified), \
          a load racing a get_or_insert, and barriers). At every barrier every frozen entry (created by get_or_insert, or of an opt-out type, or in a cache without reloader) must hold exactly the value it was created with, \
          report ReloadId::NEVER and no reload, and Handle::get() must return the same address and content. \
          non-trivial = a frozen entry created by get_or_insert on a key the reloader already knew (loaded / load_owned before, then removed or cleared) with a later notified edit; distinct = different canonical JSON"
